@@ -49,7 +49,29 @@ class FaultSysExit(SystemExit):
     pass
 
 
-FAULT_CLASSES = {"Exception": FaultExc, "KI": FaultKI, "GenExit": FaultGenExit, "SysExit": FaultSysExit}
+class FaultStopIter(StopIteration):
+    pass
+
+
+class FaultAssert(AssertionError):
+    pass
+
+
+class FaultKey(KeyError):
+    pass
+
+
+class FaultType(TypeError):
+    pass
+
+
+class FaultAttr(AttributeError):
+    pass
+
+
+FAULT_CLASSES = {"Exception": FaultExc, "KI": FaultKI, "GenExit": FaultGenExit, "SysExit": FaultSysExit,
+                 "StopIter": FaultStopIter, "Assertion": FaultAssert, "Key": FaultKey, "Type": FaultType,
+                 "Attr": FaultAttr}
 
 
 class ErrInst(Exception):
@@ -194,6 +216,8 @@ class Runtime:
         for fid, f in self.faults.items():
             if exc is f:
                 label = {"FaultExc": "Exception", "FaultKI": "KI", "FaultGenExit": "GenExit", "FaultSysExit": "SysExit",
+                         "FaultStopIter": "StopIter", "FaultAssert": "Assertion", "FaultKey": "Key",
+                         "FaultType": "Type", "FaultAttr": "Attr",
                          "CancelledError": "Cancelled", "GeneratorExit": "GenExit"}.get(type(f).__name__,
                                                                                          type(f).__name__)
                 return (label, fid)
